@@ -1,37 +1,38 @@
 (* Properties/C15.v — to_value agrees with the text serialiser. *)
 From SJ Require Import Base.Bytes Base.Utf8 Base.FloatB Model.Read Model.Value Model.De Model.Sval Model.Ser Model.ValueSer
   Spec.Syntax Spec.Denote Spec.Layout Proofs.SerToValue Proofs.SerMain.
+From SJ Require Import Proofs.SerFinal.
 
 (* side condition [c15_side]: no finite f32 value and no 128-bit integer outside [i64::MIN, u64::MAX] (both only without
    arbitrary_precision: the two documented exceptions), no use of the private Number token protocol *)
-Theorem C15_same_success : forall cf fmt32 fmt64 v, ryu_json fmt32 fmt64 -> ryu_reads_back cf fmt64 -> literal_kept cf ->
+Theorem C15_same_success : forall cf fmt32 fmt64 v, ryu_json fmt32 fmt64 -> ryu_reads_back cf fmt64 -> 
   wfs v = true -> c15_side (arbitrary_precision cf) v = true ->
   ((exists j, to_value cf fmt32 fmt64 v = Ok j) <-> (exists bufs, serialize cf fmt32 fmt64 Compact v = Ok bufs)).
-Proof. exact C15_same_success_main. Qed.
+Proof. exact C15_same_success_final. Qed.
 Print Assumptions C15_same_success.
 
-Theorem C15_same_rejection : forall cf fmt32 fmt64 v, ryu_json fmt32 fmt64 -> ryu_reads_back cf fmt64 -> literal_kept cf ->
+Theorem C15_same_rejection : forall cf fmt32 fmt64 v, ryu_json fmt32 fmt64 -> ryu_reads_back cf fmt64 -> 
   wfs v = true -> c15_side (arbitrary_precision cf) v = true ->
   ((exists e, to_value cf fmt32 fmt64 v = Err e O /\ (e = KeyMustBeAString \/ e = FloatKeyMustBeFinite))
    <-> (exists e, serialize cf fmt32 fmt64 Compact v = Err e O /\ (e = KeyMustBeAString \/ e = FloatKeyMustBeFinite))).
-Proof. exact C15_same_rejection_main. Qed.
+Proof. exact C15_same_rejection_final. Qed.
 Print Assumptions C15_same_rejection.
 
 (* the Value returned by to_value is the one the text printed by to_string denotes ... *)
-Theorem C15_same_value : forall cf fmt32 fmt64 v j bufs, ryu_json fmt32 fmt64 -> ryu_reads_back cf fmt64 -> literal_kept cf ->
+Theorem C15_same_value : forall cf fmt32 fmt64 v j bufs, ryu_json fmt32 fmt64 -> ryu_reads_back cf fmt64 -> 
   wfs v = true -> c15_side (arbitrary_precision cf) v = true ->
   to_value cf fmt32 fmt64 v = Ok j -> serialize cf fmt32 fmt64 Compact v = Ok bufs ->
   exists c, concat bufs = render c /\ wfb c = true /\ denote cf c = Some j.
-Proof. exact C15_same_value_main. Qed.
+Proof. exact C15_same_value_final. Qed.
 Print Assumptions C15_same_value.
 
 (* ... i.e. the Value obtained by parsing to_string(t) (parser completeness as a hypothesis; nesting within the parser's limit) *)
-Theorem C15_parse_back : forall cf fmt32 fmt64 v j bufs, ryu_json fmt32 fmt64 -> ryu_reads_back cf fmt64 -> literal_kept cf ->
-  parser_complete cf -> wfs v = true -> c15_side (arbitrary_precision cf) v = true ->
+Theorem C15_parse_back : forall cf fmt32 fmt64 v j bufs, ryu_json fmt32 fmt64 -> ryu_reads_back cf fmt64 -> 
+   wfs v = true -> c15_side (arbitrary_precision cf) v = true ->
   to_value cf fmt32 fmt64 v = Ok j -> serialize cf fmt32 fmt64 Compact v = Ok bufs ->
   (forall c, concat bufs = render c -> limit_disabled cf = false -> (cdepth c <= 127)%nat) ->
   from_input (mkEnv RSlice TEof cf) (concat bufs) = Ok j.
-Proof. exact C15_parse_back_main. Qed.
+Proof. exact C15_parse_back_final. Qed.
 Print Assumptions C15_parse_back.
 
 (* the two exceptions are real *)
